@@ -113,6 +113,24 @@ impl RawGen {
         }
     }
 
+    /// For the configuration that runs on the repository's own StdLibState (real file system,
+    /// stdin and stdout): switch off every family that touches files, the terminal, interaction
+    /// modes (recovered errors would be printed to the real stdout) or the disk.
+    pub fn restrict_to_pure(&mut self) {
+        for (i, f) in RAW_FAMILIES.iter().enumerate() {
+            if matches!(
+                *f,
+                "mode" | "stream_open" | "stream_read" | "stream_misc" | "input" | "dump"
+            ) {
+                self.weights[i] = 0;
+            }
+        }
+        if self.weights.iter().sum::<u32>() == 0 {
+            self.weights[0] = 3;
+            self.weights[1] = 3;
+        }
+    }
+
     fn id(&mut self) -> u32 {
         self.next_id += 1;
         self.next_id
